@@ -26,6 +26,7 @@ fn main() {
         "c01" => vmc::props::c01(tier),
         "c02" => vmc::props::c02(tier),
         "c03" => vmc::props::c03(tier),
+        "c06" => vmc::props::c06(tier),
         "c10" => vmc::props::c10(tier),
         "c11" => vmc::props::c11(tier),
         "c12" => vmc::props::c12(tier),
